@@ -92,3 +92,8 @@ package compiler
 //@ func parser.Frugal.validateTypedefs
 //@   ensures lastcallret("parser.Frugal.typedefCycle", 0) ==> result != nil
 //@   modifies *
+
+// ---- determinism of code generation (C19) ------------------------------------------------------------------------
+// Every range over a map reachable from compiler.Compile, with the reason its random order cannot reach
+// the output.
+//@ maprange dartlang.Generator.addToPubspec 0 sorted-keys
